@@ -119,7 +119,7 @@ func build(root string, cfg Config, hist []int) (*world, string) {
 		var batch []*base.MetricItem
 		var its []item
 		for b := 0; b < op.Batch; b++ {
-			res := []string{"A", "B"}[b]
+			res := resNames[b]
 			n += 10
 			batch = append(batch, &base.MetricItem{Resource: res, Classification: 12, PassQps: n, BlockQps: n + 1, CompleteQps: n + 2, ErrorQps: n + 3, AvgRt: n + 34, Concurrency: uint32(n + 5)})
 			its = append(its, item{sec: sec, res: res, n: n})
@@ -246,7 +246,7 @@ func (w *world) queries(full bool) []query {
 			}
 			out = append(out, query{Kind: 0, Begin: b, End: e, Res: ""})
 			if full {
-				out = append(out, query{Kind: 0, Begin: b, End: e, Res: "A"}, query{Kind: 0, Begin: b, End: e, Res: "B"})
+				out = append(out, query{Kind: 0, Begin: b, End: e, Res: resNames[0]}, query{Kind: 0, Begin: b, End: e, Res: resNames[1]})
 			}
 		}
 		for _, n := range []uint32{1, 2, 100} {
@@ -726,3 +726,7 @@ func replay(c *props.Ctx, raw json.RawMessage) (bool, string) {
 func init() {
 	props.Register(&props.Prop{ID: "C17", Run: run, Replay: replay})
 }
+
+// resNames are the two resources written: legal names (no '|', no line break) that differ only in surrounding
+// white space, so that "read back unchanged" and "by resource" are checked on names a parser could normalise.
+var resNames = []string{" A", "A\t"}
